@@ -40,6 +40,29 @@ def sdmf_fields(payload):
     }
 
 
+def rehash_ownleaf(payload, shnum, nshares):
+    """An SDMF share (one segment) whose block is altered, whose block hash tree is recomputed to match the altered
+    block, and whose share hash chain carries -- in place of the top-most uncle, which a reader learns from any other
+    share -- an entry for the share's OWN leaf holding the genuine block-hash-tree root.  Every length stays as it was.
+    A reader must notice that the leaf it computed and the leaf the chain alleges differ."""
+    from allmydata.util import hashutil, mathutil
+    (ver, seq, root, iv, k, n, segsize, datalen, o_sig, o_shc, o_bht, o_sd, o_epk, o_eof) = struct.unpack(SDMF_HEADER, payload[:HLEN])
+    if ver != 0 or (o_sd - o_bht) != 32 or (o_bht - o_shc) % 34 or o_epk <= o_sd:
+        return None
+    chain = [(struct.unpack(">H", payload[p:p + 2])[0], payload[p + 2:p + 34]) for p in range(o_shc, o_bht, 34)]
+    top = [ix for ix, (hn, _h) in enumerate(chain) if hn in (1, 2)]
+    if not top:
+        return None
+    genuine_root = payload[o_bht:o_bht + 32]
+    block = bytearray(payload[o_sd:o_epk])
+    block[len(block) // 2] ^= 0x40
+    new_root = hashutil.block_hash(bytes(block))          # SDMF hashes the block alone (MDMF: salt + block)
+    first_leaf = mathutil.next_power_of_k(nshares, 2) - 1
+    chain[top[0]] = (first_leaf + shnum, genuine_root)
+    new_chain = b"".join(struct.pack(">H", hn) + h for hn, h in chain)
+    return payload[:o_shc] + new_chain + new_root + bytes(block) + payload[o_epk:]
+
+
 def pubkey_span(payload):
     """(start, end) of the verification key inside a share payload, SDMF or MDMF."""
     if payload[0] == 0:
@@ -149,7 +172,11 @@ def oracle_stream(ctx, G, OFF):
         fmt = r.choice(["sdmf", "mdmf"])
         nver = r.choice([1, 2, 3])
         scenario = r.choice(["flip", "flip", "truncate", "other-file", "forged-with-our-key", "forged-with-our-key", "older-version", "mix",
-                             "header-forgery", "header-forgery"])
+                             "header-forgery", "header-forgery", "rehash-ownleaf", "rehash-ownleaf"])
+        if scenario == "rehash-ownleaf":
+            fmt = "sdmf"
+            k, N = r.choice([(2, 3), (2, 4), (3, 5), (3, 3)])
+            S = r.choice([N, N + 1])
         if scenario == "older-version" and nver == 1:
             nver = 2
         case = {"seed": seed, "k": k, "N": N, "servers": S, "format": fmt, "versions": nver, "scenario": scenario}
@@ -181,6 +208,27 @@ def oracle_stream(ctx, G, OFF):
                 mdmf_off = {"k": (41, 42), "N": (42, 43), "segsize": (43, 51), "datalen": (51, 59)}
                 delta = r.choice([1, 1, 2, 255])
                 case["forged_field"] = fld
+            if scenario == "rehash-ownleaf":
+                # whether the forged share is accepted depends on WHICH share it is and on the order in which the k
+                # shares in use are validated: forge each share in turn (all others intact), one read each
+                pristine = {(sh.server, sh.shnum): g.read_share(sh) for sh in shs}
+                for sh in shs[1:]:
+                    raw = pristine[(sh.server, sh.shnum)]
+                    forged = rehash_ownleaf(raw[OFF:], sh.shnum, N)
+                    if forged is None:
+                        continue
+                    g.write_share(sh, raw[:OFF] + forged)
+                    one = g.run(g.mutable_read(node.get_uri(), client=r.choice([0, 1])), outcome=True)
+                    ctx.case((seed, scenario, sh.shnum), kind="oracle:sdmf:rehash-ownleaf-single")
+                    if one.status == "ok" and one.value not in contents:
+                        ctx.oracle_fail("read-returned-unpublished-bytes", "read returned bytes that no write-cap holder published: share %d carries an "
+                                        "altered block, a block hash tree recomputed to match, and a share-hash-chain entry for its own leaf "
+                                        "holding the genuine root (all other shares intact)" % sh.shnum,
+                                        case=dict(case, victim=sh.shnum), expected=[c.decode() for c in contents], observed=one.value)
+                    elif N - 1 >= k and (one.status != "ok" or one.value != contents[-1]):
+                        ctx.oracle_fail("read-failed-with-k-intact-newest-shares", "read %s although every share but one is intact" % (one.error or one.value), case=dict(case, victim=sh.shnum))
+                    g.write_share(sh, raw)
+                victims = shs[:r.randrange(1, len(shs))]        # then several at once; at least one share stays intact
             for sh in victims:
                 raw = g.read_share(sh)
                 sc = scenario if scenario != "mix" else r.choice(["flip", "truncate", "other-file", "forged-with-our-key", "older-version"])
@@ -188,6 +236,11 @@ def oracle_stream(ctx, G, OFF):
                     lo, hi = (sdmf_off if raw[OFF] == 0 else mdmf_off)[fld]
                     val = (int.from_bytes(raw[OFF + lo:OFF + hi], "big") + delta) % (1 << (8 * (hi - lo)))
                     g.write_share(sh, raw[:OFF + lo] + val.to_bytes(hi - lo, "big") + raw[OFF + hi:])
+                elif sc == "rehash-ownleaf":
+                    forged = rehash_ownleaf(raw[OFF:], sh.shnum, N)
+                    if forged is None:
+                        continue
+                    g.write_share(sh, raw[:OFF] + forged)
                 elif sc == "flip":
                     for _ in range(r.choice([1, 1, 2, 5])):
                         pos = OFF + r.randrange(len(raw) - OFF)
